@@ -133,13 +133,15 @@ func runC03(r *oblig.Report) {
 	w := e8grammar.Load(load.RepoRoot())
 	fs := c.Reach(c.Entries("transformer.TransformDSLToProto", "transformer.TransformModularDSLToProto"))
 	c.noteReach("reachable", fs)
-	r.Rule("R9.1", "instance-table", "pre-pass keeps line structure and prefixes; comment rules", 6)
+	r.Rule("R9.1", "instance-table", "pre-pass keeps line structure and prefixes; comment rules; each line cleaned on its own", 7)
 	r.Rule("R1.5", "instance-table", "listener overrides real methods, reads every label, consults every operator alternative", 30)
 	r.Rule("C03.3", "instance-table", "operand lists never share storage with a list still in use", 6)
 	r.Rule("C03.4", "instance-table", "rewrite stack discipline", 3)
 	r.Rule("R8.8", "instance-table", "layout vocabulary accepted by the embedded automata", 20)
 	r.Rule("R8.9", "instance-table", "the embedded parser automaton derives one token sequence per layout the property enumerates", 9)
 	e9pos.PrePassShape(c.P, r, "R9.1")
+	r.Rule("C03.7", "instance-table", "model objects a listener callback stores are built from its own parse-tree node, not fetched from a table kept across declarations", 8)
+	e5path.BuiltFromOwnContext(c.P, r, "C03.7", fs)
 	e1variants.ListenerOverrides(c.P, r, "R1.5")
 	e1variants.GrammarCoverage(c.P, r, "R1.5", w.ParserG)
 	e5path.RewriteMoves(c.P, r, "C03.3", fs)
